@@ -230,7 +230,8 @@ func (s *SubscriptionService) DeleteSubscriptions(sc *uasc.SecureChannel, r ua.R
 			results[i] = ua.StatusBadSubscriptionIDInvalid
 			continue
 		}
-		if session.AuthTokenID.String() != sub.Session.AuthTokenID.String() {
+		// a request without a known session, or a subscription created without one, never matches
+		if session == nil || sub.Session == nil || session.AuthTokenID.String() != sub.Session.AuthTokenID.String() {
 			results[i] = ua.StatusBadSessionIDInvalid
 			continue
 		}
